@@ -338,7 +338,10 @@ func (it *indexedMessageIterator) loadChunk(chunkIndex *ChunkIndex) error {
 			if err := msg.PopulateFrom(recordContent, false); err != nil {
 				return fmt.Errorf("could not parse message in chunk: %w", err)
 			}
-			if it.channels.Get(msg.ChannelID) != nil {
+			// it.channels holds the channels selected by topic. Without a topic selection every
+			// message is wanted, and one whose channel the summary does not list must surface as
+			// the "unrecognized channel" error in NextInto rather than being dropped here.
+			if len(it.topics) == 0 || it.channels.Get(msg.ChannelID) != nil {
 				if msg.LogTime >= it.start && (msg.LogTime < it.end || it.noEnd) {
 					it.messageIndexes = append(it.messageIndexes, messageIndexWithChunkSlot{
 						timestamp:      msg.LogTime,
